@@ -48,7 +48,8 @@ pub fn gen_cases(rng: &mut Rng, spec: &GenSpec) -> Vec<Case> {
                 continue;
             }
             let class = *rng.pick(spec.classes);
-            let n = if alg == Alg::Primitive { rng.range(61, 140) } else { rng.range(61, 200) };
+            // a few beyond 256 observations (cluster sizes, labels and chain depths past one byte)
+            let n = if alg == Alg::Primitive { rng.range(61, 140) } else if k % 8 == 0 { rng.range(257, 330) } else { rng.range(61, 200) };
             let w32 = rng.below(2) == 0;
             let vals = gen::matrix(rng, class, n);
             let bits = gen::to_bits(class, w32, &vals);
@@ -329,6 +330,16 @@ pub fn c04(ctx: &Ctx, rep: &mut Report) {
                 let w32 = (l + a) % 2 == 0;
                 let vals = gen::linewalk(n, a, l);
                 cases.push(Case { alg, method: Method::Single, w32, n, bits: gen::to_bits("linewalk", w32, &vals), class: "linewalk" });
+            }
+        }
+    }
+    // subnormal entries (single linkage does no arithmetic: every finite value is in the domain)
+    for n in [3usize, 5, 8, 13, 21, 40] {
+        for alg in [Alg::Mst, Alg::Linkage, Alg::Nnchain, Alg::Generic, Alg::Primitive] {
+            for w32 in [false, true] {
+                let unit = if w32 { f32::from_bits(1) as f64 } else { f64::from_bits(1) };
+                let vals: Vec<f64> = (0..gen::tri(n)).map(|_| (rng.below(60) as f64 - 8.0) * unit).collect();
+                cases.push(Case { alg, method: Method::Single, w32, n, bits: vals.iter().map(|&x| f64_to_bits(w32, x)).collect(), class: "subnormal" });
             }
         }
     }
